@@ -121,6 +121,26 @@ def parse_opts(toks):
     return dict(t.split('=', 1) for t in toks if '=' in t)
 
 
+def hooked(ns, opts, hooks):
+    """`prop=1`: `parent` and `key` are properties whose setters run the scripted user code after storing"""
+    if opts.get('prop') != '1' or hooks is None:
+        return ns
+
+    def prop(attr):
+        slot = '_prop_' + attr
+
+        def getter(self):
+            return self.__dict__.get(slot)
+
+        def setter(self, v):
+            self.__dict__[slot] = v
+            hooks(attr)
+        return property(getter, setter)
+    ns['parent'] = prop('parent')
+    ns['key'] = prop('key')
+    return ns
+
+
 def value_semantics(ns, opts):
     """add scripted value equality / hashing / truthiness to a class namespace (`eq=L`: equal and hashing alike
     by label, `ueq=L`: equal by label and unhashable, `falsy=1`: __bool__ False and __len__ 0)"""
@@ -136,9 +156,9 @@ def value_semantics(ns, opts):
     return ns
 
 
-def make_map(opts):
-    """a ResourceMap, or an instance of a user subclass (key delimiter, value semantics)"""
-    ns = value_semantics({}, opts)
+def make_map(opts, hooks=None):
+    """a ResourceMap, or an instance of a user subclass (key delimiter, value semantics, property setters)"""
+    ns = hooked(value_semantics({}, opts), opts, hooks)
     split = opts.get('split')
     if split and split[1:] == 'sub':
         ns['split_char'] = split[0]
@@ -149,7 +169,7 @@ def make_map(opts):
     return m
 
 
-def make_handle(kind, fails=(), raised=None, opts=None):
+def make_handle(kind, fails=(), raised=None, opts=None, hooks=None):
     """a Handle whose load() counts its invocations (`tries`), raises on the scripted ones (`fails`, 1-based;
     the exception objects are recorded in `raised`) and otherwise returns a <kind> value (`loaded`)"""
     make = KINDS[kind]
@@ -166,10 +186,12 @@ def make_handle(kind, fails=(), raised=None, opts=None):
                 if raised is not None:
                     raised.append(e)
                 raise e
+            if hooks is not None:
+                hooks('load')            # the loader's own code: it may use the resource tree
             v = make()
             self.loaded.append(v)
             return v
-    ns = value_semantics({}, opts or {})
+    ns = hooked(value_semantics({}, opts or {}), opts or {}, hooks)
     if ns:
         return type('UserHandle', (CountingHandle,), ns)()
     return CountingHandle()
@@ -241,16 +263,36 @@ class Run:
         self.nanon = 0
         self.alphabet = alphabet_of(lines)
         self.loader_excs = []
+        self.anon_objs = []
+        self.silent = False
+        self.reactions = {}       # (hook, object name, k) -> list of operations (token lists)
+        self.fired = {}
+        for ln in lines:
+            t = ln.split()
+            if t[:1] == ['react']:
+                assert t[4] == ':', ln
+                ops, cur = [], []
+                for tok in t[5:] + [';']:
+                    if tok == ';':
+                        if cur:
+                            ops.append(cur)
+                        cur = []
+                    else:
+                        cur.append(tok)
+                self.reactions[(t[1], t[2], int(t[3]))] = ops
 
     # ----- naming
     def name_m(self, m):
         if m is None:
             return 'None'
         n = self.names.get(id(m))
+        if n is None and self.silent:
+            return 'unnamed'          # inside a script nothing is printed, so nothing is named
         if n is None:
             if isinstance(m, ResourceMap):
                 n = f'a{self.nanon}'
                 self.nanon += 1
+                self.anon_objs.append(m)
             else:
                 n = 'foreign'
             self.names[id(m)] = n
@@ -406,6 +448,12 @@ class Run:
             for k in self.mdecl:
                 m = self.menv[f'm{k}']
                 self.obs.append(f'link m{k} parent={self.name_m(m.parent)} key={show_key(m.key)}')
+            # the anonymous maps seen so far (those met just above included), in discovery order
+            j = 0
+            while j < len(self.anon_objs) and j < 64:
+                a = self.anon_objs[j]
+                self.obs.append(f'link a{j} parent={self.name_m(a.parent)} key={show_key(a.key)}')
+                j += 1
             self.obs.append('end-links')
         elif kind == 'snap':
             m = self.menv.get(t[2])
@@ -495,6 +543,36 @@ class Run:
         else:
             raise ValueError(f'bad op {t}')
 
+    def hooks_for(self, objname):
+        """the scripted user code of one object: called by its property setters / its loader"""
+        def fire(hook):
+            k = self.fired.get((hook, objname), 0)
+            self.fired[(hook, objname)] = k + 1
+            ops = self.reactions.get((hook, objname, k))
+            if ops:
+                self.run_silently(ops)
+        return fire
+
+    def run_silently(self, ops):
+        """a script: operations whose results are dropped and whose exceptions the script catches"""
+        from harness.core import Timeout
+        saved, self.obs = self.obs, []
+        was, self.silent = self.silent, True
+        try:
+            for t in ops:
+                try:
+                    if t[0] == 'snap' and len(t) == 2:
+                        self.menv[t[1]].get_static_map()
+                    else:
+                        self.op(t)
+                except (Timeout, HarnessError):
+                    raise
+                except Exception:        # noqa
+                    pass
+        finally:
+            self.obs = saved
+            self.silent = was
+
     def safe_op(self, t):
         """an exception that escapes from desper during an operation is an observation, never a harness
         failure (harness errors proper - a malformed scenario - are raised before desper is entered)"""
@@ -538,7 +616,7 @@ class Run:
             if t[0] == 'newmap':
                 k = int(t[1][1:])
                 assert t[1] not in self.menv
-                m = make_map(parse_opts(t[2:]))
+                m = make_map(parse_opts(t[2:]), self.hooks_for(t[1]))
                 self.menv[t[1]] = m
                 self.mdecl.append(k)
                 self.names[id(m)] = t[1]
@@ -546,7 +624,10 @@ class Run:
             elif t[0] == 'newhandle':
                 k = int(t[1][1:])
                 assert k not in self.hs
-                self.hs[k] = make_handle(t[2], parse_fails(t[3:]), self.loader_excs, parse_opts(t[3:]))
+                self.hs[k] = make_handle(t[2], parse_fails(t[3:]), self.loader_excs, parse_opts(t[3:]),
+                                         self.hooks_for(t[1]))
+            elif t[0] == 'react':
+                pass
             elif t[0] == 'op':
                 self.safe_op(t[1:])
             else:
